@@ -1,4 +1,4 @@
-use std::io::{self, BufReader, BufWriter, Read, Seek, SeekFrom, Write};
+use std::io::{self, BufReader, Read, Seek, SeekFrom};
 
 /// A wrapper a round `BufReader` that keeps track of the last read position.
 #[derive(Debug)]
@@ -50,71 +50,6 @@ where
 {
     fn seek(&mut self, pos: SeekFrom) -> io::Result<u64> {
         self.reader.seek(pos).map(|posn| {
-            self.pos = posn;
-            posn
-        })
-    }
-}
-
-/// A wrapper a round `BufWriter` that keeps track of the last written position.
-#[derive(Debug)]
-pub struct BufWriterWithPos<W>
-where
-    W: Write,
-{
-    pos: u64,
-    writer: BufWriter<W>,
-}
-
-impl<W> BufWriterWithPos<W>
-where
-    W: Write + Seek,
-{
-    /// Create a new buffered writer.
-    pub fn new(mut w: W) -> io::Result<Self> {
-        let pos = w.seek(SeekFrom::End(0))?;
-        let writer = BufWriter::new(w);
-        Ok(Self { pos, writer })
-    }
-}
-
-impl<W> BufWriterWithPos<W>
-where
-    W: Write,
-{
-    /// Return the last written postion.
-    pub fn pos(&self) -> u64 {
-        self.pos
-    }
-
-    /// Get a reference to the underlying writer.
-    pub fn get_ref(&self) -> &W {
-        self.writer.get_ref()
-    }
-}
-
-impl<W> Write for BufWriterWithPos<W>
-where
-    W: Write,
-{
-    fn write(&mut self, b: &[u8]) -> io::Result<usize> {
-        self.writer.write(b).map(|bytes_written| {
-            self.pos += bytes_written as u64;
-            bytes_written
-        })
-    }
-
-    fn flush(&mut self) -> io::Result<()> {
-        self.writer.flush()
-    }
-}
-
-impl<W> Seek for BufWriterWithPos<W>
-where
-    W: Write + Seek,
-{
-    fn seek(&mut self, pos: SeekFrom) -> io::Result<u64> {
-        self.writer.seek(pos).map(|posn| {
             self.pos = posn;
             posn
         })
